@@ -763,6 +763,7 @@ func main() {
 	out := flag.String("out", "", "output directory")
 	replay := flag.String("replay", "", "replay file (JSON)")
 	child := flag.String("child", "", "internal: run as the proxy child process (e2e)")
+	only := flag.String("only", "", "run only this part (conn): used for the -race build in the thorough tier")
 	flag.Parse()
 	if *child != "" {
 		childMain(*child)
@@ -781,6 +782,11 @@ func main() {
 		return
 	}
 
+	if *only == "conn" {
+		runConnCases(*out, r, thorough, &m)
+		writeMeta(*out, m)
+		return
+	}
 	// corpus of minimised earlier failures: always first
 	for _, s := range corpus() {
 		c.add(s, "corpus", true, 4)
